@@ -127,6 +127,15 @@ impl EventSource for Timer {
             if registration.token != token {
                 return Ok(PostAction::Continue);
             }
+            // Ignore stale expirations: if the timer was re-armed (or disabled and enabled
+            // again) after this event was collected, the event belongs to a cancelled timeout.
+            if !registration
+                .wheel
+                .borrow_mut()
+                .take_expired(registration.counter)
+            {
+                return Ok(PostAction::Continue);
+            }
             let new_deadline = match callback(*deadline, &mut ()) {
                 TimeoutAction::Drop => return Ok(PostAction::Remove),
                 TimeoutAction::ToInstant(instant) => instant,
@@ -207,6 +216,9 @@ struct TimeoutData {
 pub(crate) struct TimerWheel {
     heap: BinaryHeap<TimeoutData>,
     counter: u32,
+    // Counters of the timeouts that expired during the last poll and whose
+    // event has not been processed yet
+    expired: Vec<u32>,
 }
 
 impl TimerWheel {
@@ -214,6 +226,7 @@ impl TimerWheel {
         TimerWheel {
             heap: BinaryHeap::new(),
             counter: 0,
+            expired: Vec::new(),
         }
     }
 
@@ -237,6 +250,7 @@ impl TimerWheel {
     }
 
     pub(crate) fn cancel(&mut self, counter: u32) {
+        self.expired.retain(|&c| c != counter);
         if self
             .heap
             .peek()
@@ -256,7 +270,25 @@ impl TimerWheel {
 
         // There is an item in the heap, this unwrap cannot blow
         let data = self.heap.pop().unwrap();
+        self.expired.push(data.counter);
         Some((data.counter, data.token))
+    }
+
+    /// Forget the expirations of the previous poll, their events are gone
+    pub(crate) fn clear_expired(&mut self) {
+        self.expired.clear();
+    }
+
+    /// Consume the expiration of this timeout, returns `false` if it did not
+    /// expire during the last poll
+    pub(crate) fn take_expired(&mut self, counter: u32) -> bool {
+        match self.expired.iter().position(|&c| c == counter) {
+            Some(pos) => {
+                self.expired.swap_remove(pos);
+                true
+            }
+            None => false,
+        }
     }
 
     pub(crate) fn next_deadline(&self) -> Option<std::time::Instant> {
